@@ -3,15 +3,14 @@
 View: the two index dictionaries (keyed by the *value* of a state / symbol object: State, StackSymbol and Variable compare and hash by
 .value - World.key_of), their counters, the variable counter and the three-dimensional table `_conversions` of cells (valid flag, variable
 or None) as nested Python lists (length + content at every level).
-Proved for every method but the constructor, under the representation invariant INV:
+Proved for every method under the representation invariant INV (the constructor, which establishes it: contracts/cfg_conv_init.py):
   - the index of an object is the entry of *this* converter's dictionary for its value, whatever index the object carried before
     (repair 5th `fix:` of the converter: the index cached on the object by another converter was trusted);
   - to_cfg_combined_variable / is_valid_and_get never change a cell that already holds a variable (the same triple always gets the same
     variable) and the variables held by two different cells are different (INV: every variable in the table is Variable(n) for an n below
     the counter, and no n occurs twice) - so different triples of registered states / symbols get different variables;
   - set_valid only sets the flag of its cell.
-Assumed: the constructor establishes INV (nested comprehension / enumerate with an attribute as loop target: outside the engine), a
-rectangular table of the given dimensions; Variable(n) for different ints are different values.
+Assumed: Variable(n) for different ints are different values.
 """
 import ast
 from z3 import *
@@ -30,6 +29,7 @@ MapSt, MapSy = TMap(StV, TInt), TMap(SyV, TInt)
 NONEOB = Const('none_variable', Ob.sort()); W.none_consts['Ob'] = NONEOB
 W.consts['None'] = NONE_SYM
 Cell = TTuple(TBool, Ob)
+W.none_in_tuple = Ob
 L3 = TRec('CellList', [('len', TInt), ('at', _TArr(TInt, Cell))])
 L2 = TRec('CellList2', [('len', TInt), ('at', _TArr(TInt, L3))])
 L1 = TRec('CellList3', [('len', TInt), ('at', _TArr(TInt, L2))])
@@ -39,7 +39,7 @@ for LT, ET in ((L3, Cell), (L2, L3), (L1, L2)):
     W.contract(Contract(f'{LT.name}.__setitem__', [('self', LT), ('i', TInt), ('v', ET)], ret=LT, requires=lambda o: And(0 <= o.i.term, o.i.term < o.self.len.term),
                         pure=(lambda LT_, ET_: lambda o: LT_.make(len=o.self.len, at=Sym(_TArr(TInt, ET_), Store(o.self.at.term, o.i.term, o.v.term))))(LT, ET)))
 CONV = TRec('CFGVariableConverter', [('_counter', TInt), ('_inverse_states_d', MapSt), ('_counter_state', TInt), ('_inverse_stack_symbol_d', MapSy), ('_counter_symbol', TInt),
-                                     ('_conversions', L1), ('dim_symbols', TInt)])          # dim_symbols: ghost (second dimension of the table; no code writes it)
+                                     ('_conversions', L1)])
 numvar = Function('Variable_of_int', IntSort(), Ob.sort()); numof = Function('int_of_Variable', Ob.sort(), IntSort())
 i_, j_, k_, i2, j2, k2, n_ = Ints('i_ j_ k_ i2 j2 k2 n_'); s_, s2 = Consts('s_ s2', StV.sort()); y_, y2 = Consts('y_ y2', SyV.sort())
 W.axioms += [ForAll([n_], And(numof(numvar(n_)) == n_, numvar(n_) != NONEOB), patterns=[numvar(n_)])]
@@ -58,7 +58,7 @@ def flag(ct): return Cell.get(Sym(Cell, ct), '_0').term
 def row(c, i): return Sym(L2, Select(L1.get(conv(c), 'at').term, i))
 def col(c, i, j): return Sym(L3, Select(L2.get(row(c, i), 'at').term, j))
 def N(c): return L1.get(conv(c), 'len').term
-def M(c): return c.dim_symbols.term
+def M(c): return L2.get(row(c, 0), 'len').term          # second dimension of the table: the length of its first row (every row has it: RECT)
 def valid(c, i, j, k): return And(0 <= i, i < N(c), 0 <= j, j < M(c), 0 <= k, k < N(c))
 def dS(c, s): return Select(MapSt.get(c._inverse_states_d, 'dom').term, s)
 def vS(c, s): return Select(MapSt.get(c._inverse_states_d, 'val').term, s)
@@ -85,7 +85,7 @@ def INV_C(c):
                                                         And(i_ == i2, j_ == j2, k_ == k2)), patterns=[MultiPattern(cell(c, i_, j_, k_), cell(c, i2, j2, k2))]))
 def INV(c): return And(INV_S(c), INV_Y(c), RECT(c), INV_C(c))
 def same_indexes(a, b): return And(a._inverse_states_d == b._inverse_states_d, a._counter_state == b._counter_state, a._inverse_stack_symbol_d == b._inverse_stack_symbol_d, a._counter_symbol == b._counter_symbol)
-def same_table(a, b): return And(a._conversions == b._conversions, a._counter == b._counter, a.dim_symbols == b.dim_symbols)
+def same_table(a, b): return And(a._conversions == b._conversions, a._counter == b._counter)
 def others_unchanged(a, b, i, j, k):
     """every cell but (i, j, k) is what it was, and the shape of the table is what it was"""
     return And(N(a) == N(b), M(a) == M(b), RECT(b),
